@@ -24,10 +24,19 @@ import sys
 import typing as T
 from concurrent.futures import ProcessPoolExecutor
 
+import os
+import time
+
 from . import common
 from .common import Check, MachineryError, SPECS, run_tlc, scratch
 
 PROP = 'C13'
+_T0 = time.time()
+
+
+def dbg(msg: str) -> None:
+    if os.environ.get('VERIF_DEBUG'):
+        print(f'[{time.time() - _T0:7.1f}s] {msg}', file=sys.stderr, flush=True)
 
 DEFAULT_DIRS = ['/usr/include', '/usr/local/include', '/verif-no-such-dir/include']
 START, END = '-Wl,--start-group', '-Wl,--end-group'
@@ -86,6 +95,8 @@ def max_id(kind: Kind) -> int:
             m = min(m, len(FIXED[t]))
         elif '{D}' in t:
             m = min(m, len(DEFAULT_DIRS))
+        elif '{i}' not in t:
+            m = 1
     return m
 
 
@@ -145,9 +156,10 @@ def stub_compiler(gnu: bool) -> T.Any:
     return _STUBS[gnu]
 
 
-def execute(case: T.Dict[str, T.Any], alpha: T.List[T.Dict[str, T.Any]]) -> T.Dict[str, T.Any]:
-    """Run one history on real objects.  ``case`` has ops (arguments as 1-based indices into alpha), gnu, fin,
-    vseed.  Adds text (concrete calls), rets, obs."""
+def execute(case: T.Dict[str, T.Any], alpha: T.List[T.Dict[str, T.Any]], verbose: bool = False) -> T.Dict[str, T.Any]:
+    """Run one history on real objects.  ``case`` has ops (arguments as 1-based indices into alpha), g (gnu), f (fin),
+    vseed.  Adds r (what every call returned) and o (final observation of every object); with ``verbose`` also the
+    concrete calls and the argument texts."""
     from mesonbuild.compilers.mixins.clike import CLikeCompilerArgs as CA
     rnd = random.Random(case['vseed'])
     variant = [rnd.randrange(64) for _ in alpha]
@@ -159,41 +171,51 @@ def execute(case: T.Dict[str, T.Any], alpha: T.List[T.Dict[str, T.Any]]) -> T.Di
     def idx(xs: T.Any) -> T.List[int]:
         return [back.get(x, 0) for x in xs]
 
-    comp = stub_compiler(bool(case['gnu']))
+    comp = stub_compiler(bool(case['g']))
     objs = [CA(comp)]
     rets: T.List[T.List[int]] = []
     calls: T.List[str] = []
     for op in case['ops']:
         k = op['k']
         b = [text[j - 1] for j in op['b']]
-        o = objs[op['o'] - 1]
+        n = op['o']
+        o = objs[n - 1]
         v = rnd.randrange(6)
         ret: T.List[int] = []
+        call = k
         try:
             if k == 'iadd':
                 if len(b) == 1 and v == 0:
-                    o.append(b[0]); calls.append(f'o{op["o"]}.append({b[0]!r})')
+                    call = f'o{n}.append({b[0]!r})'
+                    o.append(b[0])
                 elif v == 1:
-                    o.extend(b); calls.append(f'o{op["o"]}.extend({b!r})')
+                    call = f'o{n}.extend({b!r})'
+                    o.extend(b)
                 elif v == 2:
-                    o.extend(x for x in b); calls.append(f'o{op["o"]}.extend(generator {b!r})')
+                    call = f'o{n}.extend(x for x in {b!r})'
+                    o.extend(x for x in b)
                 elif v == 3:
-                    o += tuple(b); calls.append(f'o{op["o"]} += tuple {b!r}')
+                    call = f'o{n} += tuple({b!r})'
+                    o += tuple(b)
                 elif v == 4:
-                    o += CA(comp, b); calls.append(f'o{op["o"]} += CLikeCompilerArgs({b!r})')
+                    call = f'o{n} += CLikeCompilerArgs(c, {b!r})'
+                    o += CA(comp, b)
                 else:
-                    o += b; calls.append(f'o{op["o"]} += {b!r}')
+                    call = f'o{n} += {b!r}'
+                    o += b
             elif k == 'xdirect':
                 if v < 3:
-                    o.extend_direct(b); calls.append(f'o{op["o"]}.extend_direct({b!r})')
+                    call = f'o{n}.extend_direct({b!r})'
+                    o.extend_direct(b)
                 else:
+                    call = f'for x in {b!r}: o{n}.append_direct(x)'
                     for x in b:
                         o.append_direct(x)
-                    calls.append(f'o{op["o"]}.append_direct each of {b!r}')
             elif k == 'insert':
-                o.insert(op['i'], b[0]); calls.append(f'o{op["o"]}.insert({op["i"]}, {b[0]!r})')
+                call = f'o{n}.insert({op["i"]}, {b[0]!r})'
+                o.insert(op['i'], b[0])
             elif k == 'remove':
-                calls.append(f'o{op["o"]}.remove({b[0]!r})')
+                call = f'o{n}.remove({b[0]!r})'
                 try:
                     o.remove(b[0])
                     ret = [1]
@@ -201,67 +223,85 @@ def execute(case: T.Dict[str, T.Any], alpha: T.List[T.Dict[str, T.Any]]) -> T.Di
                     ret = [0]
             elif k == 'new':
                 if v == 0:
-                    objs.append(CA(comp, CA(comp, b))); calls.append(f'CLikeCompilerArgs(c, CLikeCompilerArgs(c, {b!r}))')
+                    call = f'o{len(objs) + 1} = CLikeCompilerArgs(c, CLikeCompilerArgs(c, {b!r}))'
+                    objs.append(CA(comp, CA(comp, b)))
                 elif v == 1:
-                    objs.append(CA(comp, tuple(b))); calls.append(f'CLikeCompilerArgs(c, tuple {b!r})')
+                    call = f'o{len(objs) + 1} = CLikeCompilerArgs(c, tuple({b!r}))'
+                    objs.append(CA(comp, tuple(b)))
                 else:
-                    objs.append(CA(comp, b)); calls.append(f'CLikeCompilerArgs(c, {b!r})')
+                    call = f'o{len(objs) + 1} = CLikeCompilerArgs(c, {b!r})'
+                    objs.append(CA(comp, b))
             elif k == 'copy':
-                objs.append(o.copy()); calls.append(f'o{op["o"]}.copy()')
+                call = f'o{len(objs) + 1} = o{n}.copy()'
+                objs.append(o.copy())
             elif k == 'add':
-                objs.append(o + (b if v < 4 else tuple(b))); calls.append(f'o{op["o"]} + {b!r}')
+                call = f'o{len(objs) + 1} = o{n} + {b!r}'
+                objs.append(o + (b if v < 4 else tuple(b)))
             elif k == 'radd':
-                objs.append(b + o); calls.append(f'{b!r} + o{op["o"]}')
+                call = f'o{len(objs) + 1} = {b!r} + o{n}'
+                objs.append(b + o)
             elif k == 'read':
                 if v == 0:
-                    got = [x for x in o]; calls.append(f'[x for x in o{op["o"]}]')
+                    call = f'[x for x in o{n}]'
+                    got = [x for x in o]
                 elif v == 1:
-                    got = o[:]; calls.append(f'o{op["o"]}[:]')
+                    call = f'o{n}[:]'
+                    got = o[:]
                 elif v == 2:
-                    _ = (o == ['zzz']); got = list(o); calls.append(f'o{op["o"]} == [..]; list(o{op["o"]})')
+                    call = f'o{n} == ["zzz"]; list(o{n})'
+                    _ = (o == ['zzz'])
+                    got = list(o)
                 elif v == 3:
-                    _ = repr(o); got = list(o); calls.append(f'repr(o{op["o"]}); list(o{op["o"]})')
+                    call = f'repr(o{n}); list(o{n})'
+                    _ = repr(o)
+                    got = list(o)
                 else:
-                    got = list(o); calls.append(f'list(o{op["o"]})')
+                    call = f'list(o{n})'
+                    got = list(o)
                 ret = idx(got)
             elif k == 'rev':
-                calls.append(f'list(reversed(o{op["o"]}))')
+                call = f'list(reversed(o{n}))'
                 ret = idx(list(reversed(o)))
             elif k == 'native':
-                calls.append(f'o{op["o"]}.to_native(copy=True)')
+                call = f'o{n}.to_native(copy=True)'
                 ret = idx(o.to_native(copy=True))
             elif k == 'len':
-                calls.append(f'len(o{op["o"]})')
+                call = f'len(o{n})'
                 ret = [len(o)]
             else:
                 raise MachineryError('unknown operation ' + k)
         except MachineryError:
             raise
         except Exception as e:  # the statement knows no failing operation
-            calls[-1:] = [(calls[-1] if calls else k) + f'  -> raised {type(e).__name__}: {e}']
+            call += f'  -> raised {type(e).__name__}: {e}'
             ret = [-1]
         rets.append(ret)
+        if verbose:
+            calls.append(call)
     obs = []
     for o in objs:
         try:
-            if case['fin'] == 0:
+            if case['f'] == 0:
                 l1 = idx(list(o))
-                n = idx(o.to_native(copy=True))
-                l2 = idx(list(o))
-                obs.append({'l': l1, 'n': n, 'l2': l2})
+                nat = idx(o.to_native(copy=True))
+                obs.append([l1, nat, idx(list(o))])
             else:
-                obs.append({'l': [], 'n': idx(o.to_native()), 'l2': []})
+                obs.append([[], idx(o.to_native()), []])
         except Exception:
-            obs.append({'l': [-1], 'n': [-1], 'l2': [-1]})
-    case['rets'] = rets
-    case['obs'] = obs
-    case['calls'] = calls
-    case['text'] = text
+            obs.append([[-1], [-1], [-1]])
+    case['r'] = rets
+    case['o'] = obs
+    if verbose:
+        case['calls'] = calls
+        case['text'] = text
     return case
 
 
 # ---------------------------------------------------------------------------
 # (A) exhaustive enumeration of the model's operation space
+
+CREATORS = ('new', 'copy', 'add', 'radd')
+
 
 def _seqs(ops: T.List[T.List[T.Dict[str, T.Any]]], depth: int, prefix: T.List[int], nobj: int) -> T.Iterator[T.List[int]]:
     """all index sequences of exactly `depth` more operations; ops[n-1] = operations with n live objects."""
@@ -270,34 +310,38 @@ def _seqs(ops: T.List[T.List[T.Dict[str, T.Any]]], depth: int, prefix: T.List[in
         return
     table = ops[nobj - 1]
     for j, op in enumerate(table):
-        n2 = nobj + (1 if op['k'] in ('new', 'copy', 'add', 'radd') else 0)
-        yield from _seqs(ops, depth - 1, prefix + [j], n2)
+        yield from _seqs(ops, depth - 1, prefix + [j], nobj + (1 if op['k'] in CREATORS else 0))
 
 
-def _worker_enum(args: T.Tuple[str, T.Dict[str, T.Any], int, T.List[int], int, int]) -> T.List[T.Dict[str, T.Any]]:
-    label, space, depth, first, gnu, sd = args
+def path_ops(ops: T.List[T.List[T.Dict[str, T.Any]]], s: T.Sequence[int]) -> T.List[T.Dict[str, T.Any]]:
+    n = 1
+    out = []
+    for j in s:
+        op = ops[n - 1][j]
+        out.append(op)
+        if op['k'] in CREATORS:
+            n += 1
+    return out
+
+
+def enum_case(space: T.Dict[str, T.Any], s: T.Sequence[int], gnu: int, sd: int) -> T.Dict[str, T.Any]:
+    h = 0
+    for j in s:
+        h = (h * 1009 + j + 1) % 2147483647
+    return {'s': [j + 1 for j in s], 'ops': path_ops(space['ops'], s), 'g': gnu, 'f': (h + sd) % 2, 'vseed': sd * 1000003 + h}
+
+
+def _worker_enum(args: T.Tuple[T.Dict[str, T.Any], int, T.List[int], int, int]) -> T.List[T.Dict[str, T.Any]]:
+    space, depth, first, gnu, sd = args
     common.use_repo_meson()
     alpha = space['alpha'] + MARKERS
     ops = space['ops']
     out = []
-    nobj = 1
-    for j in first:
-        if ops[nobj - 1][j]['k'] in ('new', 'copy', 'add', 'radd'):
-            nobj += 1
+    nobj = 1 + sum(1 for op in path_ops(ops, first) if op['k'] in CREATORS)
     for s in _seqs(ops, depth - len(first), list(first), nobj):
-        n = 1
-        oplist = []
-        for j in s:
-            op = ops[n - 1][j]
-            oplist.append(op)
-            if op['k'] in ('new', 'copy', 'add', 'radd'):
-                n += 1
-        h = 0
-        for j in s:
-            h = (h * 1009 + j + 1) % 2147483647
-        case = {'id': f'{label}:' + '.'.join(map(str, s)), 'ops': oplist, 'gnu': gnu, 'fin': (h + sd) % 2,
-                'vseed': sd * 1000003 + h}
-        out.append(execute(case, alpha))
+        c = execute(enum_case(space, s, gnu, sd), alpha)
+        del c['ops']        # the path `s` names them
+        out.append(c)
     return out
 
 
@@ -312,7 +356,7 @@ def big_alpha() -> T.List[T.Dict[str, T.Any]]:
     return alpha
 
 
-def _rand_case(rnd: random.Random, alpha: T.List[T.Dict[str, T.Any]], j: int) -> T.Dict[str, T.Any]:
+def _rand_case(rnd: random.Random, alpha: T.List[T.Dict[str, T.Any]]) -> T.Dict[str, T.Any]:
     n = len(alpha)
     # a history concentrates on a few arguments so that repeats are frequent
     pool = [rnd.randrange(1, n + 1) for _ in range(rnd.randint(3, 12))]
@@ -341,7 +385,7 @@ def _rand_case(rnd: random.Random, alpha: T.List[T.Dict[str, T.Any]], j: int) ->
             nobj += 1
         else:
             ops.append({'k': 'iadd', 'o': o, 'b': batch(), 'i': 0})
-    return {'id': f'B:{j}', 'ops': ops, 'gnu': rnd.randint(0, 1), 'fin': rnd.randint(0, 1), 'vseed': rnd.randrange(1 << 30)}
+    return {'ops': ops, 'g': rnd.randint(0, 1), 'f': rnd.randint(0, 1), 'vseed': rnd.randrange(1 << 30)}
 
 
 def _worker_rand(args: T.Tuple[int, int, int]) -> T.List[T.Dict[str, T.Any]]:
@@ -351,15 +395,15 @@ def _worker_rand(args: T.Tuple[int, int, int]) -> T.List[T.Dict[str, T.Any]]:
     out = []
     for j in range(lo, hi):
         rnd = random.Random(sd * 7919 + j)
-        out.append(execute(_rand_case(rnd, alpha[:-2], j), alpha))
+        out.append(execute(_rand_case(rnd, alpha[:-2]), alpha))
     return out
 
 
 # ---------------------------------------------------------------------------
 # judging
 
-KEYS = ('id', 'ops', 'gnu', 'fin', 'rets', 'obs')
 WHOLE = {'LenMoreThanEagerLength', 'ReversedRaised'}
+INT_CLAUSES = ('CallReturn', 'LenMoreThanEagerLength', 'ObjectCount')
 
 
 def signature(c: T.Dict[str, T.Any], v: T.Dict[str, T.Any], alpha: T.List[T.Dict[str, T.Any]]) -> str:
@@ -371,69 +415,99 @@ def signature(c: T.Dict[str, T.Any], v: T.Dict[str, T.Any], alpha: T.List[T.Dict
     for op in c['ops'][:upto]:
         hist.append(f"{op['k']}{op['o']}[" + ','.join(letters(alpha[j - 1]) for j in op['b']) + ']' +
                     (str(op['i']) if op['k'] == 'insert' else ''))
-    return f"{v['clause']}@gnu{c['gnu']}fin{c['fin']}:" + ';'.join(hist)
+    return f"{v['clause']}@gnu{c['g']}fin{c['f']}:" + ';'.join(hist)
 
 
-def judge(chk: Check, cases: T.List[T.Dict[str, T.Any]], alpha: T.List[T.Dict[str, T.Any]], label: str) -> None:
-    by_id = {c['id']: c for c in cases}
+def _tlc_part(payload: str, workers: T.Union[int, str]) -> common.TLCResult:
     with scratch('c13-') as d:
         tf = d / 'cases.json'
-        with tf.open('w') as f:
-            json.dump({'alpha': alpha, 'cases': [{k: c[k] for k in KEYS} for c in cases]}, f, separators=(',', ':'))
-        res = run_tlc(SPECS / 'arglist', 'TraceArgList', env={'TRACE_FILE': str(tf)}, timeout=3000)
-        bad = res.json_lines()
+        tf.write_text(payload)
+        return run_tlc(SPECS / 'arglist', 'TraceArgList', env={'TRACE_FILE': str(tf)}, timeout=3000, workers=workers,
+                       heap='4g')
+
+
+def judge(chk: Check, cases: T.List[T.Dict[str, T.Any]], alpha: T.List[T.Dict[str, T.Any]], label: str,
+          space: T.Optional[T.Dict[str, T.Any]] = None) -> None:
+    """TLC (TraceArgList) accepts or rejects every case.  The batch is split over a few TLC processes because
+    reading the JSON is the single-threaded part of a run."""
+    from concurrent.futures import ThreadPoolExecutor
+    keys = ('id', 's', 'g', 'f', 'r', 'o') if space is not None else ('id', 'ops', 'g', 'f', 'r', 'o')
+    for n, c in enumerate(cases):
+        c['id'] = n
+    head = {'alpha': alpha, 'ops': space['ops'] if space is not None else []}
+
+    def payload(part: T.Sequence[T.Dict[str, T.Any]]) -> str:
+        return json.dumps({**head, 'cases': [{k: c[k] for k in keys} for c in part]}, separators=(',', ':'))
+
+    nparts = max(1, min(4, len(cases) // 4000))
+    size = (len(cases) + nparts - 1) // nparts
+    parts = [cases[j:j + size] for j in range(0, len(cases), size)]
+    t0 = time.time()
+    with ThreadPoolExecutor(max_workers=nparts) as tp:
+        results = list(tp.map(lambda p: _tlc_part(payload(p), max(2, common.NCPU // nparts)), parts))
+    bad: T.List[T.Dict[str, T.Any]] = []
+    for part, res in zip(parts, results):
         if not res.clean:
             raise MachineryError('TraceArgList did not complete cleanly:\n' + res.stdout[-1500:])
-        if res.distinct != 2 * len(cases):
-            raise MachineryError(f'TraceArgList judged {res.distinct // 2} of {len(cases)} cases')
-        if bad:
-            # single-threaded re-run of the rejected cases only, so that report lines do not interleave
-            ids = {v.get('id') for v in bad if isinstance(v, dict)}
-            sub = [c for c in cases if c['id'] in ids] or cases
-            with tf.open('w') as f:
-                json.dump({'alpha': alpha, 'cases': [{k: c[k] for k in KEYS} for c in sub]}, f, separators=(',', ':'))
-            res1 = run_tlc(SPECS / 'arglist', 'TraceArgList', env={'TRACE_FILE': str(tf)}, timeout=3000, workers=1)
-            bad1 = res1.json_lines()
-            if len(bad1) < len(ids):
-                # interleaving hid an id in the parallel run: judge everything single-threaded
-                with tf.open('w') as f:
-                    json.dump({'alpha': alpha, 'cases': [{k: c[k] for k in KEYS} for c in cases]}, f, separators=(',', ':'))
-                bad1 = run_tlc(SPECS / 'arglist', 'TraceArgList', env={'TRACE_FILE': str(tf)}, timeout=3000,
-                               workers=1).json_lines()
-            bad = bad1
-    chk.add_tlc(f'TraceArgList[{label}]', res, model=False)
+        if res.distinct != 2 * len(part):
+            raise MachineryError(f'TraceArgList judged {res.distinct // 2} of {len(part)} cases')
+        chk.add_tlc(f'TraceArgList[{label}]', res, model=False)
+        got = res.json_lines()
+        if got:
+            # rejected cases are judged again single-threaded so that report lines cannot interleave
+            ids = {v[0].get('id') for v in got if isinstance(v, list) and v and isinstance(v[0], dict)}
+            sub = [c for c in part if c['id'] in ids]
+            got1 = _tlc_part(payload(sub), 1).json_lines() if sub else []
+            if len(got1) < len(got):
+                got1 = _tlc_part(payload(part), 1).json_lines()
+            for vs in got1:
+                bad += vs
     chk.traces += len(cases)
+    dbg(f'judge {label} {len(cases)} cases {time.time() - t0:.1f}s rejected={len(bad)}')
+    seen: T.Set[str] = set()
     for v in bad:
-        c = by_id.get(v['id'])
-        if c is None:
-            raise MachineryError('verdict for unknown case ' + repr(v))
+        c = cases[v['id']]
         if v['clause'] == 'HarnessBadObject':
             raise MachineryError('harness generated an operation on a missing object: ' + repr(v))
-        chk.violation(signature(c, v, alpha),
-                      {'verdict': v, 'case': {k: c[k] for k in KEYS + ('vseed',)}, 'alpha': alpha, 'calls': c.get('calls'),
-                       'text': c.get('text'),
-                       'expected_text': [c['text'][j - 1] if 0 < j <= len(c['text']) else j for j in v.get('expected', [])]
-                       if v['clause'] not in ('CallReturn', 'LenMoreThanEagerLength', 'ObjectCount') else v.get('expected'),
-                       'got_text': [c['text'][j - 1] if 0 < j <= len(c['text']) else j for j in v.get('got', [])]
-                       if v['clause'] not in ('CallReturn', 'LenMoreThanEagerLength', 'ObjectCount') else v.get('got')})
+        full = dict(c)
+        if 'ops' not in full:
+            full['ops'] = path_ops(space['ops'], [j - 1 for j in c['s']])   # type: ignore[index]
+        sig = signature(full, v, alpha)
+        if sig in seen:
+            continue
+        seen.add(sig)
+        common.use_repo_meson()
+        ver = execute({k: full[k] for k in ('ops', 'g', 'f', 'vseed')}, alpha, verbose=True)
+        text = ver['text']
+
+        def names(xs: T.Any) -> T.Any:
+            return [text[j - 1] if 0 < j <= len(text) else f'<{j}>' for j in xs]
+        chk.violation(sig, {'verdict': v, 'case': {k: full[k] for k in ('ops', 'g', 'f', 'vseed')}, 'alpha': alpha,
+                            'calls': ver['calls'], 'returned': ver['r'], 'final': ver['o'], 'text': text,
+                            'expected_text': v.get('expected') if v['clause'] in INT_CLAUSES else names(v.get('expected', [])),
+                            'got_text': v.get('got') if v['clause'] in INT_CLAUSES else names(v.get('got', []))})
 
 
-def _account(chk: Check, cases: T.List[T.Dict[str, T.Any]], alpha: T.List[T.Dict[str, T.Any]]) -> None:
+def _account(chk: Check, cases: T.List[T.Dict[str, T.Any]], alpha: T.List[T.Dict[str, T.Any]],
+             space: T.Optional[T.Dict[str, T.Any]] = None) -> None:
     chk.evaluations += len(cases)
     for c in cases:
-        # non-trivial: some += met an argument it had to override or drop (an argument of a de-dupable kind
-        # occurs at least twice in the history) and at least one operation followed an unread +=
+        # non-trivial: an argument of a de-dupable kind is mentioned at least twice in a history of >= 2 operations
+        ops = c['ops'] if 'ops' in c else path_ops(space['ops'], [j - 1 for j in c['s']])   # type: ignore[index]
         seen: T.Set[int] = set()
         rep = False
-        for op in c['ops']:
+        for op in ops:
             for j in op['b']:
                 if j in seen and alpha[j - 1]['d'] != 'none':
                     rep = True
                 seen.add(j)
-        if rep and len(c['ops']) >= 2:
-            chk.nontriv(';'.join(f"{op['k']}{op['o']}{op['b']}{op['i']}" for op in c['ops']) + f"g{c['gnu']}")
+        if rep and len(ops) >= 2:
+            chk.nontriv(';'.join(f"{op['k']}{op['o']}{op['b']}{op['i']}" for op in ops) + f"g{c['g']}")
+    common.use_repo_meson()
     for c in cases[:: max(1, len(cases) // 2)][:2]:
-        chk.sample({'id': c['id'], 'calls': c['calls'], 'returned': c['rets'], 'final': c['obs'], 'text': c['text']}, limit=8)
+        ops = c['ops'] if 'ops' in c else path_ops(space['ops'], [j - 1 for j in c['s']])   # type: ignore[index]
+        ver = execute({'ops': ops, 'g': c['g'], 'f': c['f'], 'vseed': c['vseed']}, alpha, verbose=True)
+        chk.sample({'calls': ver['calls'], 'returned': ver['r'], 'final': ver['o'], 'text': ver['text']}, limit=8)
 
 
 # ---------------------------------------------------------------------------
@@ -467,26 +541,42 @@ def main(chk: Check) -> None:
         law_cfg = mc_cfg([1, 2, 3, 4, 5, 6, 7, 9, 10, 11], [1], 2, 1, 1, ['iadd'], True, LAWS, ' MaxList = 3\n')
     res = run_tlc(SPECS / 'arglist', 'ArgList_MC', cfg_text=law_cfg, timeout=3000, allow_violation=False)
     chk.add_tlc('ArgList_MC[laws]', res)
+    dbg(f'laws {res.distinct} states {res.wall:.1f}s')
 
     # 2. refinement lazy => eager on the spaces that are then replayed on the implementation
-    spaces = [
-        # label, argsel, onesel, maxbatch, model depth, impl depth, maxobjs, kinds, gnu
-        ('wide', [1, 2, 3, 4, 5], [1, 3, 5], 2, 3, 2 if quick else 3, 2, ALL_KINDS, True),
-        ('deep', [1, 3, 4, 5], [3], 1, 5 if quick else 6, 4 if quick else 5, 2,
-         ['iadd', 'xdirect', 'insert', 'read', 'len', 'copy', 'add'], False),
-        ('native', [4, 6, 9, 10, 11, 12], [10], 2 if not quick else 1, 3, 3, 1, ['iadd', 'xdirect', 'insert', 'native'], True),
-    ]
+    mid = ['iadd', 'xdirect', 'insert', 'read', 'len', 'copy', 'add']
+    pend = ['iadd', 'read', 'copy']
+    nat = ['iadd', 'xdirect', 'insert', 'native']
+    # label, argsel, onesel, maxbatch, model depth, impl depth, maxobjs, kinds, gnu
+    if quick:
+        spaces = [
+            ('wide', [1, 2, 3, 4, 5], [1, 3, 5], 2, 3, 2, 2, ALL_KINDS, True),
+            ('mid', [1, 3, 4, 5], [3], 1, 4, 3, 2, mid, False),
+            ('pend', [1, 3, 4, 5], [3], 1, 6, 5, 2, pend, False),
+            ('native', [4, 6, 9, 10, 11, 12], [10], 1, 3, 3, 1, nat, True),
+        ]
+    else:
+        spaces = [
+            ('wide', [1, 2, 3, 4, 5, 7], [1, 3, 5], 2, 3, 2, 2, ALL_KINDS, True),
+            ('wide3', [1, 2, 3, 4], [1, 3], 2, 3, 3, 2, ALL_KINDS, False),
+            ('mid', [1, 3, 4, 5], [3], 1, 5, 4, 2, mid, False),
+            ('pend', [1, 2, 3, 4, 5], [3], 1, 6, 6, 2, pend, True),
+            ('native', [4, 6, 9, 10, 11, 12], [10], 2, 3, 3, 1, nat, True),
+        ]
     with ProcessPoolExecutor(max_workers=common.NCPU) as ex:
         for label, argsel, onesel, mb, mdepth, idepth, mo, kinds, gnu in spaces:
             cfg = mc_cfg(argsel, onesel, mb, mdepth, mo, kinds, gnu, REFINE, 'POSTCONDITION EmitSpace\n')
             res = run_tlc(SPECS / 'arglist', 'ArgListLazy_MC', cfg_text=cfg, collect=['space.json'], timeout=3000,
                           allow_violation=False)
             chk.add_tlc(f'ArgListLazy_MC[{label},depth<={mdepth}]', res)
+            dbg(f'refine {label} {res.distinct} states {res.wall:.1f}s')
             space = json.loads(res.collected['space.json'])
             alpha = space['alpha'] + MARKERS
             chk.extra.setdefault('spaces', {})[label] = {
                 'operations_with_n_objects': [len(x) for x in space['ops']], 'model_depth': mdepth, 'impl_depth': idepth}
             # (A) all sequences of length 0..idepth
+            cases: T.List[T.Dict[str, T.Any]] = []
+            part_no = 0
             for depth in range(0, idepth + 1):
                 if depth == 0:
                     prefixes: T.List[T.List[int]] = [[]]
@@ -495,22 +585,19 @@ def main(chk: Check) -> None:
                 else:
                     prefixes = []
                     for j, op in enumerate(space['ops'][0]):
-                        n2 = 2 if op['k'] in ('new', 'copy', 'add', 'radd') else 1
-                        n2 = min(n2, len(space['ops']))
+                        n2 = min(2 if op['k'] in CREATORS else 1, len(space['ops']))
                         prefixes += [[j, j2] for j2 in range(len(space['ops'][n2 - 1]))]
-                jobs = [(f'A-{label}', space, depth, p, int(gnu), chk.seed) for p in prefixes]
-                cases: T.List[T.Dict[str, T.Any]] = []
-                part_no = 0
+                jobs = [(space, depth, p, int(gnu), chk.seed) for p in prefixes]
                 for part in ex.map(_worker_enum, jobs, chunksize=max(1, len(jobs) // (common.NCPU * 8))):
                     cases.extend(part)
-                    if len(cases) >= 120000:
-                        _account(chk, cases, alpha)
-                        judge(chk, cases, alpha, f'A-{label}-{depth}#{part_no}')
+                    if len(cases) >= 200000:
+                        _account(chk, cases, alpha, space)
+                        judge(chk, cases, alpha, f'A-{label}<={depth}#{part_no}', space)
                         part_no += 1
                         cases = []
-                if cases:
-                    _account(chk, cases, alpha)
-                    judge(chk, cases, alpha, f'A-{label}-{depth}#{part_no}')
+            if cases:
+                _account(chk, cases, alpha, space)
+                judge(chk, cases, alpha, f'A-{label}<={idepth}#{part_no}', space)
         # (B) random histories
         n_rand = 4000 if quick else 120000
         step = max(1, n_rand // (common.NCPU * 4))
@@ -549,8 +636,7 @@ def replay(chk: Check, data: T.Dict[str, T.Any]) -> None:
         from . import c13_projects
         c13_projects.replay(chk, det, judge)
         return
-    case = dict(det['case'])
-    case = execute(case, det['alpha'])
+    case = execute(dict(det['case']), det['alpha'])
     judge(chk, [case], det['alpha'], 'replay')
 
 
